@@ -309,6 +309,32 @@ CLAIMED = {
        "Trusted: Lean kernel + propext/Classical.choice/Quot.sound; XV.Spec.Particle, XV.Spec.XsdValid as transcribed; harness and generators.",
   technique="Lean 4 proof over code-shaped models + exhaustive model/implementation/Spec correspondence",
   ref="4/C08"),
+ "C03": dict(
+  text="Lean 4 theorems (22), all unbounded. Spec XV.Spec.Infoset over C02's Doc: infoset : Doc -> List Event with the 2.11 line ends, 3.3.3 "
+       "attribute-value normalisation, reference expansion, internal-subset defaults, DTD declarations, ignorable white space and Locator line "
+       "numbers. eol_model_eq_spec / eol_lines_model_eq_spec: the code-shaped XMLReader::getNextChar/handleEOL with refills and its line counter "
+       "equal the 2.11 rule (CR at a refill boundary, CR CR LF, CR at the very end, XML 1.1 NEL/LS); eol_idempotent, eol_no_cr; "
+       "attnorm_model_eq_spec: IGXMLScanner::normalizeAttValue with the 0xFFFF escape marker equals 3.3.3 for every AttTypes value and every "
+       "value; attnorm_raw_model_eq_spec, attnorm_idempotent_tokenized, charref_units_spec; events_wellnested, dom_walk_build "
+       "(domWalk (buildDom e) = e), sax1_sax2_agree, pull_eq_push, pull_pieces_nonempty, filter_spec; line_numbers_spec, line_of_start_tag, "
+       "line_of_comment, line_of_pi, feed_init_line, render_split; events_parse_render: WF c -> (parse (render c)).map infoset = ok (infoset c) "
+       "(composed with C02's parse_render). Tie: one canonical dump per configuration of the real parsers (SAXParser, SAX2XMLReader with "
+       "Lexical/Decl/DTD handlers, XercesDOMParser, DOMLSParser with 6 filters, parseFirst/parseNext for all three; x scanners IG/DG/WF/SG x "
+       "namespaces x entity-reference nodes x include-ignorable-whitespace x validation) against the Spec evaluated on the same bytes; exhaustive "
+       "tiers: line-end strings in every construct, 10 attribute types x 13 white-space shapes as default, #FIXED and specified value; constants "
+       "(AttTypes enum, chCR/chLF/chNEL/chLineSeparator, the 0xFFFF marker, kCharBufSize) regenerated from source (Gen/NormConsts; raises when the "
+       "branch shapes of normalizeAttValue / handleEOL change).",
+  note="PARTIAL: events_wellnested and events_parse_render carry the hypotheses WF and entOnlyDoc (as C02; false for an arbitrary Doc: a "
+       "mismatched end-tag name unbalances the word); attnorm_model_eq_spec assumes literal characters are not the marker and, under 1.1, not "
+       "NEL/LS (open finding tokenized-attribute:xml11-nel-ls-collapsed); the DOCTYPE is C02's fragment (no external identifier, no parameter "
+       "entities) - such documents are judged only by API-vs-API agreement and a well-nestedness check on the delivered stream; DOM TypeInfo not "
+       "compared (declared types compared through SAX); filters never act on the document element and run with entity-reference nodes off (DOM LS "
+       "leaves text inside EntityReference nodes open); namespace URIs are C06's; not modelled: elementDecl/attributeDecl callbacks, the DOM "
+       "internalSubset string, Entity node children. 7 fixes committed (8 keys), 3 open known findings (XML 1.1 NEL/LS collapsed in tokenized "
+       "attributes, empty identifier literal reported as absent, SAX2 startDTD without endDTD when the external subset is not loaded). "
+       "Trusted: Lean kernel + propext/Classical.choice/Quot.sound; XV.Spec.Infoset, XV.Spec.Xml.* as transcribed; harness dumps and generators.",
+  technique="Lean 4 proof over code-shaped models + Spec-judged event-dump correspondence across all APIs/scanners",
+  ref="4/C03"),
  "C04": dict(
   text="Lean 4 theorems over a code-shaped model of XMLReader's byte->character pipeline (refreshRawBuffer, the xcodeMoreChars "
        "needMore/low-water loop, refreshCharBuffer, getNextChar/peekNextChar with handleEOL, skipped*/peekString, both constructors incl. "
